@@ -1,16 +1,16 @@
 #!/bin/sh
 # usage: tools/verify_mutant.sh C17 A   -> confirms in the scratch worktree /tmp/mut_C17 and stores /verif/seeded/C17_A
-P=$1; V=$2; W=/tmp/mut_$P; O=$W/out/$V
+P=$1; V=$2; R=${3:-}; W=/tmp/mut${R}_$P; O=$W/out/$V
 [ -f $O/patch.diff ] || { echo "no patch"; exit 2; }
 cd $W && git checkout -q -- symmray && git apply $O/patch.diff || { echo "apply failed"; exit 2; }
 T=$(PYTHONPATH=$W /venv/bin/python -m pytest -q -p no:cacheprovider 2>&1 | tail -1)
-PYTHONPATH=$W /venv/bin/python $O/demo.py > /tmp/demo_$P$V.with 2>&1; RW=$?
+PYTHONPATH=$W /venv/bin/python $O/demo.py > /tmp/demo_$P$V$R.with 2>&1; RW=$?
 git checkout -q -- symmray
-PYTHONPATH=$W /venv/bin/python $O/demo.py > /tmp/demo_$P$V.without 2>&1; RO=$?
+PYTHONPATH=$W /venv/bin/python $O/demo.py > /tmp/demo_$P$V$R.without 2>&1; RO=$?
 echo "$P $V tests: $T | demo with patch rc=$RW | without rc=$RO"
 case "$T" in *"1213 passed"*) ;; *) echo "TESTS NOT PASSING"; exit 1;; esac
 [ $RW -ne 0 ] && [ $RO -eq 0 ] || { echo "DEMO NOT DISCRIMINATING"; exit 1; }
-D=/verif/seeded/${P}_$V; mkdir -p $D; cp $O/patch.diff $O/demo.py $D/
+D=/verif/seeded/${P}_$V$R; mkdir -p $D; cp $O/patch.diff $O/demo.py $D/
 python3 - <<PY
 import json
 m=json.load(open('$O/meta.json'))
